@@ -128,6 +128,7 @@ func runC03(r *Run) {
 	}
 	judgeReinvocations(r, vars)
 	judgeDynamicCalls(r)
+	judgeLazyLibrary(r)
 	// short-circuit forms with literal operands next to tracing and failing calls (peephole territory)
 	for _, l := range []string{`tr(1) > 0`, `trb(b)`, `m["zz"] > 0`, `boom(1) > 0`, `[trb(f)][0]`} {
 		for _, tpl := range []string{"%s && false", "%s && true", "%s || true", "%s || false", "false && %s", "true || %s", "if(%s, true, true)", "if(%s, false, false)", "if(%s, 1, 1)",
@@ -343,6 +344,98 @@ func judgeReinvocations(r *Run, vars []envVar) {
 					hs := historyFor(true)
 					r.Case(L(A(tag), hs.Sx(), tenvSx(vars), venvSx(vars, vals), oraclesSx(src, vals), Runes(src)), got.Sx())
 				}
+			}
+		}
+	}
+}
+
+// judgeLazyLibrary: user-registered LAZY functions that force their arguments zero, one or several times and in an
+// order other than the written one, with traced and stateful host functions inside the arguments. Direct predicate only
+// (these functions are outside the model's fixed library): every back end must return the same value / failure and
+// invoke the host functions with the same arguments in the same order — an argument forced twice is evaluated twice
+// everywhere (no back end caches thunks).
+func judgeLazyLibrary(r *Run) {
+	num, boolT := types.Num, types.Bool
+	reg := func(e *yae.Expr, tl *traceLog, ctr *float64) {
+		lazy := func(name string, ps []*types.Type, ret *types.Type, f val.IFun) {
+			e.RegisterFun(val.LazyFun(types.Fun(name, ps, ret), f))
+		}
+		force := func(v *val.Val) *val.Val { return v.Fun().Call() }
+		lazy("nz", []*types.Type{num, num}, num, func(a ...*val.Val) *val.Val {
+			tl.add("nz")
+			if force(a[0]).Num().V != 0 {
+				return force(a[0])
+			}
+			return force(a[1])
+		})
+		lazy("dbl", []*types.Type{num}, num, func(a ...*val.Val) *val.Val {
+			tl.add("dbl")
+			return val.Num(force(a[0]).Num().V + force(a[0]).Num().V)
+		})
+		lazy("rev", []*types.Type{num, num}, num, func(a ...*val.Val) *val.Val {
+			tl.add("rev")
+			y := force(a[1]).Num().V
+			x := force(a[0]).Num().V
+			return val.Num(x*10 + y)
+		})
+		lazy("thrice", []*types.Type{boolT, num}, num, func(a ...*val.Val) *val.Val {
+			tl.add("thrice")
+			s := 0.0
+			for i := 0; i < 3 && force(a[0]).Bool().V; i++ {
+				s += force(a[1]).Num().V
+			}
+			return val.Num(s)
+		})
+		lazy("never", []*types.Type{num, num}, num, func(a ...*val.Val) *val.Val { tl.add("never"); return force(a[1]) })
+		e.RegisterFun(val.Fun(types.Fun("next", []*types.Type{}, num), func(a ...*val.Val) *val.Val {
+			*ctr++
+			tl.add("next", val.Num(*ctr))
+			return val.Num(*ctr)
+		}))
+	}
+	srcs := []string{`nz(tr(x), tr(y))`, `nz(tr(0), tr(y))`, `dbl(tr(x))`, `dbl(next())`, `nz(next(), 7) + next()`, `rev(tr(1), tr(2))`, `rev(next(), next())`,
+		`thrice(trb(b), tr(x))`, `thrice(b, next())`, `never(tr(1), tr(2))`, `never(boom(1), tr(2))`, `dbl(dbl(tr(x)))`, `dbl(nz(tr(x), tr(y)))`, `nz(dbl(next()), 0) * 100 + next()`,
+		`dbl(lazyif(trb(b), tr(1), tr(2)))`, `lazyif(trb(b), dbl(tr(x)), tr(y))`, `dbl(if(b, next(), 0))`, `dbl(b && trb(b) ? tr(x) : tr(y))`, `[dbl(next()), next(), dbl(next())]`,
+		`rev(dbl(next()), dbl(next()))`, `thrice(next() < 3, next())`, `dbl(xs[tr(0)])`, `dbl(xs[tr(9)])`, `nz(tr(x), boom(1))`, `dbl(tr(x)) == dbl(tr(x))`, `{p: dbl(next()), q: next()}.q`}
+	for _, src := range srcs {
+		var first string
+		for bi, be := range backends {
+			tl := &traceLog{}
+			ctr := 0.0
+			e := newExpr(be, tl, true)
+			reg(e, tl, &ctr)
+			var cl yae.Callable
+			var cerr error
+			if pan, _ := protect(func() { cl, cerr = e.Compile(src, typeEnvOf(stdVars)) }); pan || cerr != nil {
+				r.Count("lazy-library:not-compiled")
+				if bi == 0 {
+					break
+				}
+				r.Violate("backends-differ", fmt.Sprintf("%q (user lazy functions forcing arguments repeatedly)", src), fmt.Sprintf("%s does not compile it, %s does", be, backends[0]))
+				continue
+			}
+			var got []string
+			for k := 0; k < 2; k++ { // two invocations of the one Callable
+				tl.ev = nil
+				var v *val.Val
+				var err error
+				mark(fmt.Sprintf("lazy library %q on %s, invocation #%d", src, be, k+1))
+				pan, msg := protect(func() { v, err = cl(valEnvOf(stdValues())) })
+				switch {
+				case pan:
+					got = append(got, "panic "+classify(msg))
+				case err != nil:
+					got = append(got, "error "+classify(err.Error())+" "+string(LS(tl.ev)))
+				default:
+					got = append(got, string(L(ValSx(v), LS(tl.ev))))
+				}
+				r.Count("lazy-library invocations")
+			}
+			g := strings.Join(got, " | ")
+			if bi == 0 {
+				first = g
+			} else if first != g {
+				r.Violate("backends-differ", fmt.Sprintf("%q (user lazy functions forcing arguments repeatedly)", src), fmt.Sprintf("%s: %s vs %s: %s", backends[0], trunc(first, 400), be, trunc(g, 400)))
 			}
 		}
 	}
